@@ -338,6 +338,16 @@ def gen_cases(thorough):
 
 def run_builder(chk, thorough):
     crate = os.path.join(VERIF, "engines", "dbgtuple")
+    if os.path.realpath(REPO) != "/repo":
+        # scratch runs against a mutated copy of the repository: the engine's path dependency has to follow
+        import shutil
+        from common import WORK
+        dst = os.path.join(WORK, "dbgtuple-src")
+        shutil.rmtree(dst, ignore_errors=True)
+        shutil.copytree(crate, dst, ignore=shutil.ignore_patterns("target"))
+        t = open(os.path.join(dst, "Cargo.toml")).read().replace('path = "/repo"', 'path = "%s"' % REPO)
+        open(os.path.join(dst, "Cargo.toml"), "w").write(t)
+        crate = dst
     env = base_env()
     env["CARGO_TARGET_DIR"] = os.path.join(TARGET, "dbgtuple")
     p = sh(["cargo", "build", "--release", "--offline", "--quiet"], cwd=crate, env=env, timeout=1200)
